@@ -289,6 +289,7 @@ def tlaps_check(module, timeout=600):
     tail).  Never raises for an unproved obligation: the caller decides."""
     import re
     import shutil
+    import signal
     import subprocess
     import tempfile
     import time
@@ -298,8 +299,6 @@ def tlaps_check(module, timeout=600):
         shutil.copy(os.path.join(SPEC_DIR, "proofs", module + ".tla"), d)
         # tlapm starts the back-end provers (z3, zenon, isabelle) as grandchildren: own process
         # group, killed as a whole when the proof ends or runs out of time (no orphan provers)
-        import os
-        import signal
         try:
             proc = subprocess.Popen(["tlapm", module + ".tla"], cwd=d, stdout=subprocess.PIPE,
                                     stderr=subprocess.STDOUT, text=True, start_new_session=True)
